@@ -1,10 +1,10 @@
 package main
 
 import (
-	"strings"
 	"fmt"
 	"go/token"
 	"go/types"
+	"strings"
 
 	"golang.org/x/tools/go/ssa"
 )
@@ -303,35 +303,45 @@ func c10R4(r *Report) {
 	// (a) record only what was registered
 	nApp := 0
 	var rebuild *ssa.Store
-	allInstrs(req, func(in ssa.Instruction) {
-		st, ok := isStoreToField(in, rf)
-		if !ok {
-			return
+	var reqUnit []*ssa.Function
+	for _, f := range p.SrcFuncs() {
+		// request itself, then the private helpers factored out of it (add(c, want))
+		if relPkg(f) == "tor" && f != req && p.inUnitOf(f, req) {
+			reqUnit = append(reqUnit, f)
 		}
-		c, isCall := st.Val.(*ssa.Call)
-		if isCall {
-			if bi, isb := c.Call.Value.(*ssa.Builtin); isb && bi.Name() == "append" {
-				nApp++
-				okD := false
-				for _, g := range guardsOf(st.Block()) {
-					g = g.norm()
-					ex, isx := g.Cond.(*ssa.Extract)
-					if isx && g.Pol && ex.Index == 0 {
-						if rc, isc := ex.Tuple.(*ssa.Call); isc && rc.Call.StaticCallee() == treq {
-							if b, isb := constBool(rc.Call.Args[3]); isb && b {
-								okD = true
+	}
+	reqUnit = append([]*ssa.Function{req}, reqUnit...)
+	for _, uf := range reqUnit {
+		allInstrs(uf, func(in ssa.Instruction) {
+			st, ok := isStoreToField(in, rf)
+			if !ok {
+				return
+			}
+			c, isCall := st.Val.(*ssa.Call)
+			if isCall {
+				if bi, isb := c.Call.Value.(*ssa.Builtin); isb && bi.Name() == "append" {
+					nApp++
+					okD := false
+					for _, g := range guardsOf(st.Block()) {
+						g = g.norm()
+						ex, isx := g.Cond.(*ssa.Extract)
+						if isx && g.Pol && ex.Index == 0 {
+							if rc, isc := ex.Tuple.(*ssa.Call); isc && rc.Call.StaticCallee() == treq {
+								if b, isb := constBool(rc.Call.Args[3]); isb && b {
+									okD = true
+								}
 							}
 						}
 					}
+					r.Check(okD, "R4", "Reader.request/record-only-registered", st.Pos(), "a priority is recorded only when Request reported it registered", "the reader records a (piece, priority) pair on a path not dominated by Request's `registered` result: it later withdraws a priority it never held, removing another reader's")
+					return
 				}
-				r.Check(okD, "R4", "Reader.request/record-only-registered", st.Pos(), "a priority is recorded only when Request reported it registered", "the reader records a (piece, priority) pair on a path not dominated by Request's `registered` result: it later withdraws a priority it never held, removing another reader's")
-				return
 			}
-		}
-		if _, isMk := st.Val.(*ssa.MakeSlice); isMk {
-			rebuild = st
-		}
-	})
+			if _, isMk := st.Val.(*ssa.MakeSlice); isMk && uf == req {
+				rebuild = st
+			}
+		})
+	}
 	r.Sentinel("R4.append", nApp, 1)
 	if rebuild == nil {
 		r.Fail("R4", "Reader.request/rebuild", req.Pos(), "Reader.request no longer rebuilds its list of requested pieces")
@@ -452,9 +462,9 @@ func c10R4(r *Report) {
 	}
 	// (c) the same-piece shortcut cannot swallow a withdrawal
 	pos := req.Params[1]
-	posNonNeg := edgeReq{Name: "pos >= 0", Match: func(cond ssa.Value, pol bool) bool {
+	posNonNeg := edgeReq{Name: "pos >= 0", ViaHelper: true, Subj: []ssa.Value{pos}, MatchS: func(sj []ssa.Value, cond ssa.Value, pol bool) bool {
 		bo, ok := cond.(*ssa.BinOp)
-		if !ok || bo.X != ssa.Value(pos) {
+		if !ok || sj[0] == nil || bo.X != sj[0] {
 			return false
 		}
 		k, okk := constInt(bo.Y)
@@ -537,9 +547,11 @@ func c10R4(r *Report) {
 
 // R6: the consumers' priorities of a requested piece form a multiset: a withdrawal removes exactly one instance.
 // Every store to RequestedPiece.prio is one of
-//   grow by one        append(prio, x)
-//   remove one at i    append(prio[:i], prio[i+1:]...)   /   slices.Delete(prio, i, i+1)
-//   clear              nil
+//
+//	grow by one        append(prio, x)
+//	remove one at i    append(prio[:i], prio[i+1:]...)   /   slices.Delete(prio, i, i+1)
+//	clear              nil
+//
 // and a removal is not repeated in the same call (after it, control reaches a return without passing it again).
 // Bulk forms (slices.DeleteFunc, a filtered rebuild, Compact) remove every reader's equal priority at once: the
 // piece is cancelled under a reader that still waits for it (found by a round-2 seeded change).
